@@ -275,6 +275,47 @@ def c_run_if_excludes(run_if: int, rl_i: int, fr: bool, rmf: bool, rt: bool, smf
   return _body(rl_i, fr, rmf, rt, smf, run_if, pos, prev_kind, soff, False, 0, 0, 0, 0, True, 5, 0, 0)
 
 
+@cond(timeout=600)
+def c_run_if_consulted_before_every_invocation(n_true: int, rl_i: int, fr: bool, nrep: int) -> bool:
+  """
+  pre: 0 <= n_true <= 4 and 0 <= rl_i <= 4 and 0 <= nrep <= 3
+  post: _
+  """
+  # run_if answers True n_true times and False from then on; the body asks nrep times to be repeated (REPEAT,
+  # or every time under force_repeat).  "A false run_if means the body is never invoked and no record is written":
+  # every invocation - re-invocations included - is preceded by its own run_if call that answered True.
+  ex = _mk_executor(0, False)
+  rl = (None, 1, 2, 3, 5)[rl_i]
+  ph = _phase_with(rl, fr, False, False, False, 0, None)
+  asked = [0]
+
+  def run_if():
+    asked[0] += 1
+    H.SCRIPT.log.append(('run_if', 'p', asked[0]))
+    return asked[0] <= n_true
+  ph.options.run_if = run_if
+  H.SCRIPT.beh = {'p': [(lambda k=k: H.B_REPEAT if k < nrep else H.B_NONE) for k in range(8)]}
+  H.SCRIPT.meas = {'p': [(True, 5)]}
+  try:
+    ex._execute_phase(ph, None, False)
+  finally:
+    ex.test_state.close()
+  reach()
+  ev = ['q' if e[0] == 'run_if' else 'b' for e in H.SCRIPT.log if e[0] in ('run_if', 'run') and e[1] == 'p']
+  recs = ex.test_state.test_record.phases
+  limit = rl or 3
+  # every body invocation is immediately preceded by a run_if call, and that call was one of the first n_true
+  q = 0
+  for i, e in enumerate(ev):
+    if e == 'q':
+      q += 1
+    else:
+      if i == 0 or ev[i - 1] != 'q' or q > n_true:
+        return False
+  nb = ev.count('b')
+  return len(recs) == nb and nb <= min(limit, n_true)
+
+
 @cond(timeout=120, expect='refute')
 def w_repeat_limit_hit(b0: int, b1: int, b2: int) -> bool:
   """
